@@ -945,42 +945,45 @@ class BackendZ3(Backend):
         if n > 1:
             solver.push()
 
-        for i in range(n):
-            self.solve_count += 1
-            if not z3_solver_sat(solver, extra_constraints, "batch_eval"):
-                break
-            model = solver.model()
+        # whatever happens during the enumeration (the solver may give up), the blocking clauses added below must not
+        # stay in the solver
+        try:
+            for i in range(n):
+                self.solve_count += 1
+                if not z3_solver_sat(solver, extra_constraints, "batch_eval"):
+                    break
+                model = solver.model()
 
-            # construct results
-            r = []
-            for expr in exprs:
-                if not isinstance(expr, numbers.Number | str | bool):
-                    v = self._primitive_from_model(model, expr)
-                    r.append(v)
-                else:
-                    r.append(expr)
+                # construct results
+                r = []
+                for expr in exprs:
+                    if not isinstance(expr, numbers.Number | str | bool):
+                        v = self._primitive_from_model(model, expr)
+                        r.append(v)
+                    else:
+                        r.append(expr)
 
-            # Append the solution to the result list
-            if model_callback is not None:
-                model_callback(self._generic_model(solver.model()))
-            result_values.append(tuple(r))
+                # Append the solution to the result list
+                if model_callback is not None:
+                    model_callback(self._generic_model(solver.model()))
+                result_values.append(tuple(r))
 
-            # Construct the extra constraint so we don't get the same result anymore
-            if i + 1 != n:
-                # a str value must become a literal of exactly these characters (z3 would parse escapes in it)
-                r_z3 = [self._string_literal(v) if isinstance(v, str) else v for v in r]
-                if len(exprs) == 1:
-                    solver.add(exprs[0] != r_z3[0])
-                else:
-                    solver.add(
-                        self._op_raw_Not(
-                            self._op_raw_And(*[(ex == ex_v) for ex, ex_v in zip(exprs, r_z3, strict=False)])
+                # Construct the extra constraint so we don't get the same result anymore
+                if i + 1 != n:
+                    # a str value must become a literal of exactly these characters (z3 would parse escapes in it)
+                    r_z3 = [self._string_literal(v) if isinstance(v, str) else v for v in r]
+                    if len(exprs) == 1:
+                        solver.add(exprs[0] != r_z3[0])
+                    else:
+                        solver.add(
+                            self._op_raw_Not(
+                                self._op_raw_And(*[(ex == ex_v) for ex, ex_v in zip(exprs, r_z3, strict=False)])
+                            )
                         )
-                    )
-                model = None
-
-        if n > 1:
-            solver.pop()
+                    model = None
+        finally:
+            if n > 1:
+                solver.pop()
 
         return result_values
 
